@@ -6,6 +6,7 @@ import Ztr.Model.Digraph
 import Ztr.Model.Channel
 import Ztr.Model.Suites
 import Ztr.Model.Runner
+import Ztr.Model.Bytecode
 /-!
 Line protocol between the Python harness and the executable model: one JSON object per line in,
 one JSON object per line out.  `op` selects the model component.  Unknown or malformed requests are
@@ -317,6 +318,28 @@ def opProto (j : Json) : Except String Json := do
     | .raiseInterrupt => "KeyboardInterrupt"
   return Json.mkObj [("ops", Json.arr (ops.map opJson).toArray)]
 
+partial def treeOf (j : Json) : Except String Ztr.Bytecode.Tree := do
+  let files ← J.natss! j "files"
+  let subs ← (← J.arr! j "subs").toList.mapM (fun (x : Json) => do
+    let a ← x.getArr?
+    if a.size ≠ 2 then throw "sub must be [name, tree]"
+    let n ← (← a[0]!.getArr?).toList.mapM (fun y => y.getNat?)
+    let t ← treeOf a[1]!
+    return (n, t))
+  return .dir files subs
+
+/-- `bytecode`: remove_stale_bytecode on a set of search roots -/
+def opBytecode (j : Json) : Except String Json := do
+  let roots ← (← J.arr! j "roots").toList.mapM (fun (x : Json) => do
+    let path ← J.natss! x "path"
+    let t ← treeOf (← x.getObjVal? "tree")
+    return (path, t))
+  let ignore ← J.natss! j "ignore"
+  let keep ← J.bool! j "keep"
+  let usec ← J.bool! j "usecompiled"
+  let r := Ztr.Bytecode.deletions keep usec (fun n => ignore.contains n) roots
+  return Json.mkObj [("deleted", Json.arr (r.map jNatss).toArray)]
+
 def dispatch (j : Json) : Except String Json := do
   let op ← J.str! j "op"
   match op with
@@ -324,6 +347,7 @@ def dispatch (j : Json) : Except String Json := do
   | "layers" => opLayers j
   | "shuffle" => opShuffle j
   | "sccs" => opSccs j
+  | "bytecode" => opBytecode j
   | "world" => opWorld j
   | "proto" => opProto j
   | "suites" => opSuites j
